@@ -460,7 +460,9 @@ func scanValues(u *Universe) []V {
 	}
 	return []V{ANil(), ANum(6, "i"), ANum(8, "i"), ANum(8, "f"), ANum(9, "f"), ANum(10, "i"), ANum(11, "u"), AStr(""), AStr("a"), AStr("a\x00"), AStr("ab"),
 		AStr("a\xff\x01b"), AStr("a\x00\x01"), AStr("\xff\x01"),
-		ABool(false), ABool(true), ATime(0, 0), ATime(3, 1), AArr(), AArr(ANum(8, "i")), AObj(), AObj("a", ANum(8, "i"))}
+		ABool(false), ABool(true), ATime(0, 0), ATime(3, 1), AArr(), AArr(ANum(8, "i")), AObj(), AObj("a", ANum(8, "i")),
+		// nil as an element: it has a rank of its own inside containers too
+		AArr(ANil()), AArr(ANil(), ANum(10, "i")), AObj("a", ANil())}
 }
 
 func validRange(s, e V, si, ei int) bool {
